@@ -57,9 +57,23 @@ def with_validators(r2, case):
     return out + rest
 
 
+def with_junk_tokens(r2, case):
+    """in half of the histories a token which is no token is presented - to {login} and as the temporary secret of {acc} -: bytes of every
+    length around the size of a real one (50 bytes); choices from a generator of their own"""
+    if not r2.chance(1, 2):
+        return case
+    rest = case[1:]
+    for _ in range(1 + r2.below(3)):
+        n = r2.choice([0, 1, 17, 18, 19, 31, 32, 33, 48, 49, 50, 51, 64, 100]) if r2.chance(2, 3) else r2.below(70)
+        pos = r2.below(len(rest) + 1)
+        rest = rest[:pos] + [r2.choice([f"login token z{n}", f"login token z{n}", f"acc tmp=token tmpsecret=z{n}"])] + rest[pos:]
+    return [case[0]] + rest
+
+
 def gen_gate(rng, tier):
     for i in range(1500 if tier == "thorough" else 250):
         case = gen_case(rng, 4 + rng.below(16))
+        case = with_junk_tokens(rng.fork(f"junktok-{i}"), case)
         for l in with_validators(rng.fork(f"validators-{i}"), case):
             yield l
 
